@@ -254,6 +254,78 @@ def check_history(w: dict[str, Any], first: str, second: str, entry: str, name: 
     return out
 
 
+# ------------------------------------------------------------------ histories that change the files between loads
+
+FH_OPS = ("load", "load-async", "shadow", "unshadow", "touch")
+FH_LOADERS = ("caching-fs2", "fs2", "caching-choice2")
+
+
+def fh_histories(tier: str) -> list[tuple[str, ...]]:
+    depth = 4 if tier == "quick" else 5
+    out: list[tuple[str, ...]] = []
+    for n_ in range(1, depth + 1):
+        out += [h for h in itertools.product(FH_OPS, repeat=n_) if any(o.startswith("load") for o in h)]
+    return out
+
+
+def check_file_history(lkind: str, hist: tuple[str, ...], res: ShardResult | None) -> list[tuple[str, Any, Any]]:
+    """A loader over two search directories; the history loads one good name, puts a file of that name into the EARLIER
+    directory (so that the cached template is shadowed and reloaded), removes it, rewrites the original; after the
+    history every escaping name is asked for, each on a fresh replay of the history, sync and async."""
+    import shutil
+    import time as _time
+
+    base = seams.sandbox("verif_c13h_")
+    out: list[tuple[str, Any, Any]] = []
+    try:
+        p1, p2, outside = (os.path.join(base, d) for d in ("p1", "p2", "outside"))
+        secret = os.path.join(outside, "secret.html")
+        probes = [secret, "../outside/secret.html", "sub/../../outside/secret.html", "/" + secret.lstrip("/"), "./../outside/secret.html"]
+        for pi, probe in enumerate(probes):
+            for entry in ("get", "get-async"):
+                for d in (p1, p2, outside):
+                    shutil.rmtree(d, ignore_errors=True)
+                seams.write_tree(base, {"p2/n.html": os.path.join(p2, "n.html") + " v1", "outside/secret.html": secret, "p1/keep.html": "k", "p2/sub/x.html": "x"})
+                if lkind == "caching-fs2":
+                    loader: Any = CachingFileSystemLoader([p1, p2], auto_reload=True)
+                elif lkind == "fs2":
+                    loader = FileSystemLoader([p1, p2])
+                else:
+                    loader = CachingChoiceLoader([FileSystemLoader(p1), FileSystemLoader(p2)], auto_reload=True)
+                env = Environment(loader=loader)
+                ver = 1
+                for op in hist:
+                    if op in ("load", "load-async"):
+                        got = load_with(env, "get" if op == "load" else "get-async", "n.html")
+                        if res is not None:
+                            res.evaluations += 1
+                        if got[0] == "ok" and not inside(got[1].rsplit(" v", 1)[0], [p1, p2]):
+                            out.append(("C13:served-file-outside-roots:file-history", {"history": list(hist)}, {"served": got[1]}))
+                    elif op == "shadow":
+                        seams.write_tree(base, {"p1/n.html": os.path.join(p1, "n.html") + " v1"})
+                    elif op == "unshadow":
+                        if os.path.exists(os.path.join(p1, "n.html")):
+                            os.unlink(os.path.join(p1, "n.html"))
+                    else:
+                        ver += 1
+                        seams.write_tree(base, {"p2/n.html": os.path.join(p2, "n.html") + f" v{ver}"})
+                        t_ = _time.time() + ver * 10
+                        os.utime(os.path.join(p2, "n.html"), (t_, t_))
+                got = load_with(env, entry, probe)
+                if res is not None:
+                    res.evaluations += 1
+                    res.outcomes.add(h64([got[0], pi]))
+                if got[0] == "ok":
+                    out.append((f"C13:absolute-or-parent-name-served:file-history:{entry}", "TemplateNotFoundError", {"probe": pi, "served": got[1].replace(base, "<sandbox>")}))
+                elif got[0] != "notfound":
+                    out.append((f"C13:absolute-or-parent-name-not-TemplateNotFound:file-history:{got[0]}", "TemplateNotFoundError", list(got)))
+    finally:
+        shutil.rmtree(base, ignore_errors=True)
+    if res is not None:
+        res.nontrivial.add(h64([lkind, list(hist)]))
+    return out
+
+
 def _rel(path: str, w: dict[str, Any]) -> str:
     return path.replace(w["root"], "<sandbox>").replace(w["root"].replace("/", "\uff0f"), "<sandbox>".replace("/", "\uff0f"))
 
@@ -296,6 +368,12 @@ def plan(tier: str, seed: int):
                 shards.append((tier, "H", (first, second), entry, 0, n))
                 total += n
     subs["histories"] = sum(sh[5] for sh in shards if sh[1] == "H")
+    fh = fh_histories(tier)
+    for lk in FH_LOADERS:
+        for lo, hi in chunks(len(fh), 24):
+            shards.append((tier, "FH", lk, "", lo, hi))
+        total += len(fh)
+    subs["file-histories"] = len(fh) * len(FH_LOADERS)
     meta = {
         "space_size": total,
         "subspaces": subs,
@@ -310,6 +388,13 @@ _NAMES: dict[int, list[str]] = {}
 def run_shard(shard) -> ShardResult:
     tier, ln, lname, entry, lo, hi = shard
     w = world()
+    if ln == "FH":
+        res = ShardResult()
+        for hist in fh_histories(tier)[lo:hi]:
+            res.cases += 1
+            for sig, exp, obs in check_file_history(lname, hist, res):
+                res.violation(sig, {"file_history": list(hist), "loader": lname, "tier": tier}, exp, obs)
+        return res
     if ln == "H":
         first, second = lname
         L = 2 if first == second else 1
@@ -347,6 +432,11 @@ def _repro(lname: str, entry: str, name: str) -> str:
 
 
 def replay(case: dict[str, Any]) -> list[dict[str, Any]]:
+    if "file_history" in case:
+        res = ShardResult()
+        for sig, exp, obs in check_file_history(case["loader"], tuple(case["file_history"]), None):
+            res.violation(sig, case, exp, obs)
+        return res.violations
     w = world()
     res = ShardResult()
     name = case["name"].replace("<sandbox>", w["root"])
